@@ -6,7 +6,8 @@ CFG = dict(
                "combineProfiles); chunkedGrab = one combine over all successes (profile up to 'same report', count and save exactly); one "
                "error line per failed source in command-line order; fails iff no source / no requested base was obtained; the result depends "
                "on the successes only (not on which other sources fail, where they sit relative to the 128 boundary, or the chunk size); what a "
-               "request gets from the run's shared HTTP transport is independent of the requests before it and of their order. "
+               "request gets from the run's shared HTTP transport is independent of the requests before it and of their order; the command line "
+               "keeps every mention of a source (cli_keeps_every_mention). End-to-end streams tie parseFlags/setDefaults/fetchProfiles/report glue to the model. "
                "The merge-dependent theorems assume three named laws of combineProfiles (equivalence, properness in the accumulator, "
                "combine [combine A; combine B] ~ combine (A ++ B)); they are PROVED for the toy profile instance the runner executes, and "
                "the boolean spec checker is proved sound w.r.t. the declarative spec. Model tied to the code by ~3.5k differential cases "
@@ -20,7 +21,9 @@ CFG = dict(
          "sizes 127..300 (thorough ..513) x 12 failure patterns aimed at the chunk switch (whole chunks failing, single success at 0/127/128/last, ...); "
          "incompatible success at the boundary; the same through fetchProfiles; stream transport: sources fetched through the run's REAL internal/transport "
          "object (http / https / https+insecure against local plain, -tls_ca-trusted and untrusted TLS servers): all kind pairs x both arrival orders, "
-         "sampled triples x 6 orders, mixes with the other kinds. distinct = sha256 of the input term; non-trivial = >= 2 sources "
+         "sampled triples x 6 orders, mixes with the other kinds; END-TO-END op pprof: driver.PProf (setDefaults, parseFlags, fetchProfiles, report) through "
+         "-proto -output, an interactive `proto >file`, the web /download handler and -top rows, parsed back; command lines with repeated / failing / "
+         "shuffled mentions, -base / -diff_base lists with empty values, odd drop_frames, 8-source completion orders (deterministic) + random. distinct = sha256 of the input term; non-trivial = >= 2 sources "
          "with at least one failing and one succeeding",
     spec_what="status / merged profile (sample type, contributors in order, weight per key) / per-source error lines differ from what the C16 "
               "statement demands for these source lists and outcomes",
@@ -28,7 +31,9 @@ CFG = dict(
                   "Go sync.WaitGroup happens-before / memory model: goroutine = one atomic slot write, barrier = every index occurs in the order",
                   "completion order is enforced best-effort by gates on the Fetcher (a fetch's return, not its slot write, is sequenced)",
                   "export shims harness/overlay/internal/driver/zz_verif_c16.go (build the profileSource lists like fetchProfiles does)"],
-    assumptions=["transport model (tr_round_trip): TLS policy per request, -tls_cert/-tls_key and the initErr path not exercised; rq_trusted is an oracle",
+    assumptions=["end-to-end: Obj.Open never recognises the first argument as a binary; drop_frames of the cases are inert (non-RE2 or matching nothing); "
+                 "comments compared after de-duplication; -symbolize=none; local (non-remote) outcome kinds only",
+                 "transport model (tr_round_trip): TLS policy per request, -tls_cert/-tls_key and the initErr path not exercised; rq_trusted is an oracle",
                  "combine_laws (P_C16.v): eqv equivalence, combine_pair_proper, combine_flat -- to be discharged by the C03/C07 merge model",
                  "mergeable: the fetched profiles can be combined at all (premise of the statement)",
                  "stderr of the source group and of the base group are compared per group (their interleaving is scheduler-dependent)"],
